@@ -646,8 +646,15 @@ func (*Catalog) enumDirectiveToUserRule(d *directive.Directive, e *enum.Enum) (*
 	}
 
 	for _, v := range vv {
+		tt := RuleTokenType(v.Type.ToTokenType())
+		if b := v.Value.Data(); len(b) >= 2 && b[0] == '"' && b[len(b)-1] == '"' {
+			// The schema library guesses the type of a value by trying its tests in
+			// the order of a map iteration, and a quoted value with a dot in it
+			// ("v1.0") passes the test for a float as well as the one for a string.
+			tt = RuleTokenTypeString
+		}
 		r.Children = append(r.Children, Rule{
-			TokenType:   RuleTokenType(v.Type.ToTokenType()),
+			TokenType:   tt,
 			ScalarValue: v.Value.Unquote().String(),
 			Note:        v.Comment,
 		})
